@@ -673,6 +673,12 @@ def sweep_mazes(ctx, n_adj, n_path, gmax):
         n = 5 if k < 3 else ctx.rng.randrange(2, gmax + 1)
         m = gen_lattice(ctx, n, cyclic=(k % 2 == 0))
         path_m.append(as_kind(ctx, m, "solved", walk=(k % 3 == 2)))
+    # degenerate but legal: a solved maze whose start is its end (one-cell solution, no step at all), at a fork cell and at a dead end
+    from maze_dataset import SolvedMaze
+    m = gen_lattice(ctx, 4, cyclic=True)
+    deg = m.coord_degrees()
+    for pick in (np.unravel_index(int(np.argmax(deg)), deg.shape), np.unravel_index(int(np.argmin(deg)), deg.shape)):
+        path_m.append(SolvedMaze.from_lattice_maze(m, [tuple(int(x) for x in pick)]))
     return adj_m, path_m
 
 
@@ -715,6 +721,10 @@ def six_mazes(ctx, gmin, gmax):
         for cyclic in (False, True):
             m = gen_lattice(ctx, ctx.rng.randrange(gmin, gmax + 1), cyclic)
             out.append(as_kind(ctx, m, kind, walk=(kind == "solved" and ctx.rng.random() < 0.25)))
+    if ctx.rng.random() < 0.5:   # start == end: one-cell solution
+        from maze_dataset import SolvedMaze
+        m = out[-1]; n = m.connection_list.shape[1]
+        out[-1] = SolvedMaze(connection_list=m.connection_list, solution=np.array([[ctx.rng.randrange(n), ctx.rng.randrange(n)]]))
     return out
 
 
